@@ -37,7 +37,7 @@ LEVEL_TEXT = ('Theorems for every WMS source configuration (supported_srs, prefe
 LEVEL_NOTE = ('Trusted: Coq kernel, hand-written model Upstream.v (+ Grid.v), the correspondence harness.  PROJ is abstract (T); '
               'float rounding is not modelled: inputs lie on a 1/1024 lattice where the arithmetic of the modelled functions is exact, '
               'cases whose outcome depends on rounding are counted and skipped.  Polygon coverages are abstract predicates (GI, GC) '
-              'with the hypothesis that the bounds of a geometry contain what the geometry contains.  WMS 1.3.0 axis order, '
+              'with the hypothesis that the bounds of a geometry contain what the geometry contains.  '
               'POST requests, ArcGIS/Mapnik sources, GetFeatureInfo/legend requests are not modelled.')
 DESIGN_REF = 'DESIGN.md section 5, C17'
 RULE = ('case = (source configuration from generated YAML, query); non-trivial = a case where a gate, negotiation or clipping branch '
@@ -47,7 +47,7 @@ TRUSTED = ['model Upstream.v hand-written from mapproxy/source/wms.py, source/ti
            'tie = differential run of the real sources vs the model (vm_compute)',
            'PROJ results rounded to the 1/1024 lattice by the harness (T is abstract in the theorems)',
            'strings are identifiers: extension of a mime type, lower-casing and srs_code equality are computed by the harness']
-ASSUMPTIONS = ['coverage is a bbox coverage or a single polygon coverage (no MultiCoverage); shapely predicates abstract', 'WMS 1.1.1 GET requests', 'query size > 0 and non-empty bbox',
+ASSUMPTIONS = ['coverage is a bbox coverage or a single polygon coverage (no MultiCoverage); shapely predicates abstract', 'WMS 1.1.1 and 1.3.0 GET requests (axis order of a CRS = pyproj axis_info)', 'query size > 0 and non-empty bbox',
                'PROJ returns a non-degenerate bbox for a non-degenerate bbox']
 EXPLANATION = ('request construction proved over the model for all configurations and queries; implementation compared on generated '
                'configurations loaded by the real loader')
@@ -63,7 +63,7 @@ class Stop(BaseException):
 # ----------------------------------------------------------------------------- string identifiers
 
 class Strs:
-    FIXED = {'bbox': 1, 'width': 2, 'height': 3, 'srs': 4, 'format': 5, 'styles': 6, '': 7}
+    FIXED = {'bbox': 1, 'width': 2, 'height': 3, 'srs': 4, 'format': 5, 'styles': 6, '': 7, 'crs': 8}
 
     def __init__(self):
         self.ids = dict(self.FIXED)
@@ -168,7 +168,7 @@ class Patches:
 # ----------------------------------------------------------------------------- SRS knowledge (read from the real objects)
 
 SRS_CODES = ['EPSG:4326', 'CRS:84', 'EPSG:4258', 'EPSG:3857', 'EPSG:900913', 'EPSG:102113', 'EPSG:25832', 'EPSG:25833',
-             'EPSG:31467']
+             'EPSG:31467', 'EPSG:3035']
 GEO_AREA = (3.0, 44.0, 17.0, 56.0)   # lon/lat window in which all of the above are well defined
 
 
@@ -183,6 +183,15 @@ class SrsInfo:
         for c, o in self.obj.items():
             self.cls[c] = classes.setdefault(o.proj.srs, len(classes) + 1)
             self.latlong[c] = bool(o.is_latlong)
+        # axis order of the CRS definition, read from pyproj directly (not from mapproxy's is_axis_order_ne)
+        from pyproj import CRS
+        self.ne = {}
+        for c in SRS_CODES:
+            if c == 'CRS:84':
+                self.ne[c] = False
+            else:
+                n = 3857 if c in ('EPSG:900913', 'EPSG:3857', 'EPSG:102100', 'EPSG:102113') else int(c.split(':')[1])
+                self.ne[c] = CRS.from_epsg(n).axis_info[0].direction == 'north'
 
     def lit(self, code):
         return '(mkSrs %d %d %s)' % (self.strs.id(code), self.cls[code], blit(self.latlong[code]))
@@ -307,6 +316,8 @@ def gen_config(ctx, info, k):
         if rng.random() < 0.15:
             req['styles'] = 'default'
         s = {'type': 'wms', 'req': req}
+        if rng.random() < 0.3:
+            s['wms_opts'] = {'version': '1.3.0'}
         if rng.random() < 0.75:
             s['supported_srs'] = rng.sample(SRS_CODES, rng.randrange(1, 4))
         if rng.random() < 0.6:
@@ -398,6 +409,21 @@ def gen_config(ctx, info, k):
         s = {'type': 'tile', 'grid': gname, 'url': 'http://tiles%d.example/%s/%%(z)s/%%(x)s/%%(y)s.png' % (i, name)}
         if rng.random() < 0.5:
             csrs = rng.choice([gsrs, gsrs, 'EPSG:4326', 'EPSG:3857'])
+            if csrs == gsrs and rng.random() < 0.4:
+                # a block of tiles of one level: the edges of the coverage lie exactly on tile borders
+                l = rng.randrange(len(res))
+                span_l = res[l] * tsz
+                nx_, ny_ = max(1, int(w // span_l)), max(1, int(h // span_l))
+                i0, j0 = rng.randrange(0, nx_), rng.randrange(0, ny_)
+                i1, j1 = rng.randrange(i0 + 1, nx_ + 1), rng.randrange(j0 + 1, ny_ + 1)
+                if g['origin'] in ('ul', 'nw'):
+                    box = (x0 + i0 * span_l, y0 + h - j1 * span_l, x0 + i1 * span_l, y0 + h - j0 * span_l)
+                else:
+                    box = (x0 + i0 * span_l, y0 + j0 * span_l, x0 + i1 * span_l, y0 + j1 * span_l)
+                s['coverage'] = {'bbox': [float(v) for v in box], 'srs': csrs}
+                gen_res_range(rng, s, res)
+                conf['sources'][name] = s
+                continue
             if csrs == gsrs or info.same(csrs, gsrs):
                 box = tuple(lat(v) for v in sub_box(rng, g['bbox'], 0.2, 1.0))
             else:
@@ -549,6 +575,7 @@ class WmsSrc:
         self.formats = list(sconf.get('supported_formats', []))
         self.fwd = list(sconf.get('forward_req_params', []))
         self.cov = cov_norm(sconf)
+        self.v130 = str((sconf.get('wms_opts') or {}).get('version', '1.1.1')) == '1.3.0'
         imgfmt = sconf['req'].get('format') or params.get('format')
         self.imgfmt = imgfmt
         self.rr_lit, self.thr = rr_lit(sconf, S)
@@ -828,6 +855,26 @@ def parse_url(url):
     return sp, [(k, v) for k, v in parse_qsl(sp.query, keep_blank_values=True)]
 
 
+def norm_pairs(ws, info, pairs):
+    """URL parameters as a WMS 1.1.1 reader would see them: for a 1.3.0 upstream CRS is renamed to SRS and the
+    BBOX of a north/east CRS (axis order from pyproj) is swapped back to x/y order."""
+    if not getattr(ws, 'v130', False):
+        return pairs
+    d = dict((k.lower(), v) for k, v in pairs)
+    code = d.get('crs')
+    out = []
+    for k, v in pairs:
+        lk = k.lower()
+        if lk == 'crs':
+            out.append(('srs', v))
+        elif lk == 'bbox' and info.ne.get(code, False):
+            parts = v.split(',')
+            out.append((k, ','.join([parts[1], parts[0], parts[3], parts[2]]) if len(parts) == 4 else v))
+        else:
+            out.append((k, v))
+    return out
+
+
 def obs_params_lit(strs, pairs):
     """URL parameters -> Gallina `params` (keys lower-cased); None if a key occurs twice."""
     items, seen = [], set()
@@ -893,6 +940,9 @@ def wms_oracle(ctx, info, ws, q, kind, urls, rep):
                          % (q['bbox'], q['srs'], ws.cov['shape'] or ws.cov['bbox'], cs), rep)
     for url, data in urls:
         sp, pairs = parse_url(url)
+        if getattr(ws, 'v130', False) and any(k.lower() == 'srs' for k, _ in pairs):
+            ctx.fail('wms130-srs-parameter', 'request to a WMS 1.3.0 upstream carries an SRS parameter', rep)
+        pairs = norm_pairs(ws, info, pairs)
         pd = {}
         for k, v in pairs:
             pd.setdefault(k.lower(), []).append(v)
@@ -948,7 +998,7 @@ def wms_oracle(ctx, info, ws, q, kind, urls, rep):
                     ctx.fail('wms-bbox-outside-extent' + suffix, 'requested bbox %r (%s) not inside the coverage extent %r (%s)'
                              % (b, srs, cb, cs), rep)
         # only configured dimensions (and template / negotiated / fixed parameters)
-        allowed = set(ws.tmpl_keys) | {'bbox', 'width', 'height', 'srs', 'format', 'styles'} | {k.lower() for k in ws.fixed}
+        allowed = set(ws.tmpl_keys) | {'bbox', 'width', 'height', 'srs', 'crs', 'format', 'styles'} | {k.lower() for k in ws.fixed}
         for k, vs in pd.items():
             if k in fwd_lower:
                 qv = [v for d, v in q['dims'].items() if d.lower() == k]
@@ -1010,6 +1060,15 @@ def gen_tile_queries(ctx, info, ts, n):
             cb = cov['bbox']
             fx, fy = gc.tile_pos(rng.uniform(cb[0], cb[2]), rng.uniform(cb[1], cb[3]), l)
             x, y = math.floor(fx), math.floor(fy)
+        if cov and cov['shape'] is None and info.same(cov['srs'], ts['srs']) and rng.random() < 0.3:
+            # a tile next to the coverage (sharing an edge or a corner with it when the coverage is tile aligned)
+            cb = cov['bbox']
+            half = float(gc.res[l]) / 2
+            px = rng.choice([cb[0] - half, cb[2] + half, rng.uniform(cb[0], cb[2])])
+            py = rng.choice([cb[1] - half, cb[3] + half, rng.uniform(cb[1], cb[3])])
+            fx, fy = gc.tile_pos(px, py, l)
+            x, y = math.floor(fx), math.floor(fy)
+            ctx.count('tile:aimed=next-to-coverage')
         r = [float(v) for v in gc.tile_rect(x, y, l)]
         w, h = r[2] - r[0], r[3] - r[1]
         kind = rng.choice(['exact', 'exact', 'exact', 'exact', 'half', 'double', 'eighth', 'size', 'srs', 'alias', 'wide', 'shrunk'])
@@ -1167,6 +1226,8 @@ def _run(ctx, P, yaml, GridCase):
     chain_cases, chain_desc = [], []
     skipped = {'float_sensitive': 0, 'off_lattice': 0, 'dup_keys': 0}
 
+    import random as _random
+    corpus_rng = _random.Random(17)
     corpus = load_corpus()
     confs = [(c['config'], c.get('queries'), c.get('params', {})) for c in corpus]
     ncorpus = len(confs)
@@ -1235,7 +1296,7 @@ def _run(ctx, P, yaml, GridCase):
                         ctx.count('wms:polygon-coverage:' + kind)
                     if urls:
                         try:
-                            u_srs = dict((k.lower(), v) for k, v in parse_url(urls[0][0])[1]).get('srs')
+                            u_srs = dict((k.lower(), v) for k, v in norm_pairs(ws, info, parse_url(urls[0][0])[1])).get('srs')
                         except Exception:
                             u_srs = None
                         ctx.count('wms:path=' + ('direct' if u_srs == q['srs'] else 'alias-or-transformed'))
@@ -1244,13 +1305,13 @@ def _run(ctx, P, yaml, GridCase):
                         return
                     wms_oracle(ctx, info, ws, q, kind, urls, rep)
                     if kind == 'request' and urls and not tag:
-                        pd_ = dict((k.lower(), v) for k, v in parse_url(urls[0][0])[1])
+                        pd_ = dict((k.lower(), v) for k, v in norm_pairs(ws, info, parse_url(urls[0][0])[1]))
                         if pd_.get('srs') == q['srs'] and pd_.get('bbox') != ','.join(str(x) for x in q['bbox']):
                             clipped.append(q)
                     t = wms_term(ctx, info, strs, ws, q, kind, detail, urls, tcalls, gcalls, skipped)
                     if t is not None:
                         tt, gi, gc_, ql, obs = t
-                        wms_cases.append('(%s, %s_t, %s_f, %s, %s, %s, %s, %s)' % (uname, uname, uname, tt, gi, gc_, ql, obs))
+                        wms_cases.append('(%s, %s, %s_t, %s_f, %s, %s, %s, %s, %s)' % (blit(ws.v130), uname, uname, uname, tt, gi, gc_, ql, obs))
                         wms_desc.append(rep)
 
                 clipped = []
@@ -1385,8 +1446,8 @@ def _run(ctx, P, yaml, GridCase):
                 if not terms:
                     continue
                 tt, gi, gc_, ql, _ = terms[0]
-                pair_cases.append('(%s, %s, %s, %s_t, %s_t, %s, %s_f, %s, %s, %s, %s, [%s])' % (
-                    blit(static_ok), ua, ub, ua, ub, tmpl_ab if tmpl_ab else ua + '_t', ua, tt, gi, gc_, ql,
+                pair_cases.append('(%s, %s, %s, %s, %s_t, %s_t, %s, %s_f, %s, %s, %s, %s, [%s])' % (
+                    blit(wa.v130), blit(static_ok), ua, ub, ua, ub, tmpl_ab if tmpl_ab else ua + '_t', ua, tt, gi, gc_, ql,
                     '; '.join(t[4] for t in terms)))
                 pair_desc.append(rep)
 
@@ -1396,7 +1457,9 @@ def _run(ctx, P, yaml, GridCase):
                 continue
             trio = [built_wms[name], built_wms[name + 'b'], built_wms[name + 'c']]
             for q in trio[0][3][:ctx.n(4, 6)] + trio[2][3][:ctx.n(2, 4)]:
-                order = rng.choice([[0, 1, 2], [0, 1, 2], [1, 0, 2], [0, 2, 1], [2, 1, 0]])
+                # replayed corpus configurations must not consume the generator's random stream
+                order_rng = rng if fixed_queries is None else corpus_rng
+                order = order_rng.choice([[0, 1, 2], [0, 1, 2], [1, 0, 2], [0, 2, 1], [2, 1, 0]])
                 seq = [trio[i] for i in order]
                 pr = run_chain(P, [x[1] for x in seq], q, info)
                 if pr is None:
@@ -1439,8 +1502,8 @@ def _run(ctx, P, yaml, GridCase):
                 if sens or not terms:
                     continue
                 tt, gi, gc_, ql, _ = terms[0]
-                chain_cases.append('(%s, [%s], [%s], %s_f, %s, %s, %s, %s, [%s])' % (
-                    seq[0][2], '; '.join('(%s, %s)' % (blit(o), x[2]) for o, x in zip(oks, seq[1:])), '; '.join(tmpls),
+                chain_cases.append('(%s, %s, [%s], [%s], %s_f, %s, %s, %s, %s, [%s])' % (
+                    blit(seq[0][0].v130), seq[0][2], '; '.join('(%s, %s)' % (blit(o), x[2]) for o, x in zip(oks, seq[1:])), '; '.join(tmpls),
                     seq[0][2], tt, gi, gc_, ql, '; '.join(t[4] for t in terms)))
                 chain_desc.append(rep)
 
@@ -1448,22 +1511,23 @@ def _run(ctx, P, yaml, GridCase):
         ctx.distribution['skipped_' + k] = v
     ctx.distribution['corpus_configurations'] = ncorpus
     kdefs = 'Definition KN : Z := %s.\nDefinition KD : Z := %s.\n' % (zlit(kn), zlit(kd))
+    kdefs += 'Definition NE (c : Z) : bool := existsb (Z.eqb c) %s.\n' % llit([strs.id(c) for c in SRS_CODES if info.ne[c]])
     ctx.corr_check('wms_get_map', 'Grid Upstream',
-                   'wms_source * params * list (Z * Z) * ttable * gtable * gtable * query * wms_obs', wms_cases,
-                   "fun c => let '(src, tmpl, fixed, tb, gi, gc, q, obs) := c in "
-                   "wms_obs_eqb tmpl fixed (wms_get_map (T_of tb) KN KD (glookup gi) (glookup gc) src q) obs",
+                   'bool * wms_source * params * list (Z * Z) * ttable * gtable * gtable * query * wms_obs', wms_cases,
+                   "fun c => let '(v, src, tmpl, fixed, tb, gi, gc, q, obs) := c in "
+                   "wms_obs_eqb v NE tmpl fixed (wms_get_map (T_of tb) KN KD (glookup gi) (glookup gc) src q) obs",
                    lambda i: wms_desc[i], defs=kdefs + '\n'.join(wms_defs), shard=300)
     ctx.corr_check('render_pair', 'Grid Upstream',
-                   'bool * wms_source * wms_source * params * params * params * list (Z * Z) * ttable * gtable * gtable * query * list wms_obs',
+                   'bool * bool * wms_source * wms_source * params * params * params * list (Z * Z) * ttable * gtable * gtable * query * list wms_obs',
                    pair_cases,
-                   "fun c => let '(ok, a, b, ta, tb_, tab, fixed, tt_, gi, gc, q, obs) := c in "
-                   "pair_obs_eqb ta tb_ tab fixed (render_pair (T_of tt_) KN KD (glookup gi) (glookup gc) ok a b q) obs",
+                   "fun c => let '(v, ok, a, b, ta, tb_, tab, fixed, tt_, gi, gc, q, obs) := c in "
+                   "pair_obs_eqb v NE ta tb_ tab fixed (render_pair (T_of tt_) KN KD (glookup gi) (glookup gc) ok a b q) obs",
                    lambda i: pair_desc[i], defs=kdefs + '\n'.join(wms_defs), shard=300)
     ctx.corr_check('render_list', 'Grid Upstream',
-                   'wms_source * list (bool * wms_source) * list params * list (Z * Z) * ttable * gtable * gtable * query * list wms_obs',
+                   'bool * wms_source * list (bool * wms_source) * list params * list (Z * Z) * ttable * gtable * gtable * query * list wms_obs',
                    chain_cases,
-                   "fun c => let '(a, rest, tmpls, fixed, tt_, gi, gc, q, obs) := c in "
-                   "outs_eqb tmpls fixed (render_list (T_of tt_) KN KD (glookup gi) (glookup gc) a rest q) obs",
+                   "fun c => let '(v, a, rest, tmpls, fixed, tt_, gi, gc, q, obs) := c in "
+                   "outs_eqb v NE tmpls fixed (render_list (T_of tt_) KN KD (glookup gi) (glookup gc) a rest q) obs",
                    lambda i: chain_desc[i], defs=kdefs + '\n'.join(wms_defs), shard=300)
     ctx.corr_check('tiled_get_map', 'Grid Upstream',
                    'tile_source * ttable * gtable * query * tile_obs', tile_cases,
